@@ -371,6 +371,40 @@ func runC06(outDir string, seed int64, tier string) {
 			c06built = map[*RT]string{}
 			top = t.build(&goals, &args, &cnt)
 		}
+		if id >= 100 && id < 100+16 {
+			// lists of integers only: proper, partial (the tail is a variable), improper, nested, as arguments
+			k := id - 100
+			ints := func(n int, tail *RT) *RT {
+				t := tail
+				for i := n; i >= 1; i-- {
+					t = &RT{K: 'l', S: ".", Args: []*RT{{K: 'i', I: int64(96 + i)}, t}}
+				}
+				return t
+			}
+			nv := func() *RT { g.nvar++; return &RT{K: 'v', V: g.nvar - 1} }
+			z := nv()
+			switch k % 8 {
+			case 0:
+				t = ints(2, z)
+			case 1:
+				t = ints(1, nv())
+			case 2:
+				t = &RT{K: 'c', S: "dl", Args: []*RT{ints(3, z), z}}
+			case 3:
+				t = ints(2, &RT{K: 'a', S: "a"})
+			case 4:
+				t = &RT{K: 'l', S: ".", Args: []*RT{ints(2, nv()), nv()}}
+			case 5:
+				t = &RT{K: 'c', S: "f", Args: []*RT{ints(4, nv()), ints(2, &RT{K: 'a', S: "[]"})}}
+			case 6:
+				t = &RT{K: 'c', S: "-", Args: []*RT{ints(1, z), z}}
+			default:
+				t = ints(3, &RT{K: 'a', S: "[]"})
+			}
+			goals, args, cnt = nil, nil, 0
+			c06built = map[*RT]string{}
+			top = t.build(&goals, &args, &cnt)
+		}
 		dq := []string{"codes", "chars", "atom"}[rr.intn(3)]
 		writer := []string{"writeq(T)", "write_canonical(T)", "write_term(T, [quoted(true)])", "write_term(T, [quoted(true), ignore_ops(true)])", "print(T)"}[rr.intn(5)]
 		if writer == "print(T)" || directed {
